@@ -443,9 +443,11 @@ def _invalidation_frame(chk):
 
     def th_apply():
         import hiten.algorithms.types.services.orbits as so
+        from hiten.algorithms.types.services.base import _DynamicsServiceBase as sb
         log = []
-        dyn = _Obj(reset=lambda *a: log.append(("reset",) + a), _initial_state=None)
-        type(dyn).period = property(lambda self: None, lambda self, v: log.append(("period", v)))
+        class Dy(_Obj):
+            period = property(lambda self: None, lambda self, v: log.append(("period", v)))
+        dyn = Dy(reset=lambda *a: log.append(("reset",) + a), _initial_state=None)
         stub = _Obj(domain_obj=_Obj(dynamics=dyn))
         cls = [c for c in vars(so).values() if isinstance(c, type) and "apply_correction" in vars(c)][0]
         payload = _Obj(x_full=[1.0, 0, 0, 0, 2.0, 0], half_period=1.25)
@@ -453,8 +455,104 @@ def _invalidation_frame(chk):
         if ("reset",) not in log or ("period", 2.5) not in log or list(dyn._initial_state) != [1.0, 0, 0, 0, 2.0, 0]:
             raise Refuted("apply_correction must reset the dynamics cache, install the corrected state and the full period",
                           str(log))
+        # real dynamics service whose period ALREADY equals the corrected one: the state changes, so trajectory and
+        # stability data computed for the old state must not survive
+        class D(so._OrbitDynamicsService):
+            initial_guess = lambda self: None
+        D.__abstractmethods__ = frozenset()
+        real = object.__new__(D)
+        sb.__init__(real, "ORBIT")
+        real._initial_state, real._period, real._trajectory, real._stability_info = "OLD", 2.5, "TRAJ(old state)", "STAB(old state)"
+        cls.apply_correction(_Obj(domain_obj=_Obj(dynamics=real)), payload)
+        if real._trajectory is not None or real._stability_info is not None or real._period != 2.5:
+            raise Refuted("apply_correction leaves trajectory / stability data of the uncorrected state when the period does "
+                          "not change", str((real._trajectory, real._stability_info)),
+                          inputs={"period before": 2.5, "half_period": 1.25})
     chk.obl("apply_correction: dynamics cache reset, corrected state installed, period = 2 * half period",
             "K2 postconditions", ["hiten.algorithms.types.services.orbits:apply_correction"], "B4 exact evaluation", th_apply)
+
+
+_REPLAY_LATEST = """
+import warnings
+warnings.filterwarnings("ignore")
+import numpy as np
+from hiten import System
+l1 = System.from_bodies("earth", "moon").get_libration_point(1)
+o = l1.create_orbit("halo", amplitude_z=0.2, zenith="southern")
+o.period = 2.75
+bad = False
+for steps in (100, 50, 100):
+    tr = o.propagate(steps=steps)
+    n = len(o.trajectory.times)
+    print("propagate(steps=%d) returned %d samples; orbit.trajectory has %d" % (steps, len(tr.times), n))
+    bad = bad or n != steps
+print("CONFIRMED" if bad else "NOT-CONFIRMED")
+"""
+
+
+def _latest_results(chk):
+    """attributes that mirror 'the latest result' must be updated on cache hits as well (a hit is a public operation too)"""
+    import hiten.algorithms.types.services.base as sb
+    import hiten.algorithms.types.services.orbits as so
+    import hiten.algorithms.types.services.manifold as sm
+
+    def th_traj():
+        S = so._OrbitDynamicsService
+
+        class Sv(S):
+            system = _Obj(dynsys="DYN")
+            initial_state = property(lambda self: self._initial_state)
+            initial_guess = lambda self: None
+        Sv.__abstractmethods__ = frozenset()
+        svc = object.__new__(Sv)
+        sb._DynamicsServiceBase.__init__(svc, "ORBIT")
+        svc._initial_state, svc._period, svc._trajectory, svc._stability_info = "X0", 2.0, None, None
+        type_saved = (so._propagate_dynsys, so.Trajectory.from_solution)
+        so._propagate_dynsys = lambda **kw: ("SOL", kw["steps"], kw["method"], kw["order"])
+        so.Trajectory.from_solution = staticmethod(lambda sol, **kw: ("TRAJ",) + sol[1:])
+        try:
+            for steps in (100, 50, 100, 100, 50):
+                r = S.propagate(svc, steps=steps, method="adaptive", order=8)
+                if r != ("TRAJ", steps, "adaptive", 8):
+                    raise Refuted("propagate returns a trajectory computed with other settings", str(r))
+                if svc.trajectory is not r:
+                    raise Refuted(f"after propagate(steps={steps}) orbit.trajectory is {svc.trajectory}, not the trajectory just "
+                                  f"returned (history 100, 50, 100, ...): the attribute is only set when the cache misses",
+                                  str(r), replay=_REPLAY_LATEST, inputs={"history": [100, 50, 100]})
+        finally:
+            so._propagate_dynsys, so.Trajectory.from_solution = type_saved
+    chk.obl("orbit propagate: after EVERY call (cache hit or miss) orbit.trajectory is the trajectory just returned "
+            "(history 100, 50, 100, 100, 50 steps)", "K2 postconditions", [SO_ + ":_OrbitDynamicsService.propagate"],
+            "B4 exact evaluation", th_traj)
+
+    def th_manifold():
+        S = sm._ManifoldDynamicsService
+
+        class Sv(S):
+            orbit = _Obj(initial_state="X0", period=2.0)
+            stable, direction = 1, 1
+            _run_compute = lambda self, **kw: ("RESULT", kw["displacement"])
+        Sv.__abstractmethods__ = frozenset()
+        svc = object.__new__(Sv)
+        sb._DynamicsServiceBase.__init__(svc, "MANIFOLD")
+        svc._manifold_result = None
+        kw = dict(step=0.1, integration_fraction=0.5, NN=1, method="adaptive", order=8, dt=0.01, energy_tol=1e-6,
+                  safe_distance=2.0, show_progress=False)
+        for disp in (1e-6, 1e-4, 1e-6, 1e-6, 1e-4):
+            r = S.compute_manifold(svc, displacement=disp, **kw)
+            if r != ("RESULT", disp):
+                raise Refuted("compute_manifold returns a result computed with other settings", str(r))
+            if svc.manifold_result is not r:
+                raise Refuted(f"after compute(displacement={disp}) the manifold's result / trajectories are those of "
+                              f"{svc.manifold_result}, not of the result just returned (history 1e-6, 1e-4, 1e-6)", str(r),
+                              inputs={"history": [1e-6, 1e-4, 1e-6]})
+    chk.obl("manifold compute: after EVERY call (cache hit or miss) manifold_result / trajectories belong to the result just "
+            "returned (history 1e-6, 1e-4, 1e-6, ... displacement)", "K2 postconditions",
+            [SM_ + ":_ManifoldDynamicsService.compute_manifold"], "B4 exact evaluation", th_manifold)
+
+
+SO_ = "hiten.algorithms.types.services.orbits"
+SM_ = "hiten.algorithms.types.services.manifold"
 
 
 def _primitives(chk):
@@ -492,8 +590,9 @@ def _primitives(chk):
         import hiten.algorithms.types.services.orbits as so
         S = so._OrbitDynamicsService
         log = []
-        stub = _Obj(_period=2.0, _trajectory="T", _stability_info="S", reset=lambda *a: log.append(a))
-        type(stub).period = property(lambda self: self._period)
+        class St(_Obj):
+            period = property(lambda self: self._period)
+        stub = St(_period=2.0, _trajectory="T", _stability_info="S", reset=lambda *a: log.append(a))
         S.period.fset(stub, 3.0)
         if stub._period != 3.0 or stub._trajectory is not None or stub._stability_info is not None or log != [()]:
             raise Refuted("period setter: a changed period must clear trajectory, stability info and the whole cache",
@@ -514,24 +613,40 @@ def _primitives(chk):
     def th_degree():
         import hiten.algorithms.types.services.center as sc
         S = sc._CenterManifoldDynamicsService
-        resets = []
-        stub = _Obj(_degree=4, _hamsys="H", make_key=lambda *a: ("K",) + a, reset=lambda k=None: resets.append(k))
-        S.degree.fset(stub, 6)
-        if stub._degree != 6 or stub._hamsys is not None or set(resets) != {("K", "pipeline", 4), ("K", "pipeline", 6)}:
-            raise Refuted("degree setter: must drop the pipeline entries of the old and the new degree and the cached hamsys",
-                          str((stub._degree, stub._hamsys, resets)))
-        resets.clear()
-        S.degree.fset(stub, 6)
-        if resets:
-            raise Refuted("degree setter: unchanged degree must not reset", str(resets))
+        serial = [0]
+
+        class Pipe:
+            def __init__(self, point, degree):
+                serial[0] += 1
+                self.point, self.degree, self.serial = point, degree, serial[0]
+
+            def get_hamiltonian(self, form):
+                return _Obj(hamsys=("HS", form, self.degree), degree=self.degree)
+        svc = object.__new__(S)
+        sb._DynamicsServiceBase.__init__(svc, "CM")
+        svc._point, svc._degree, svc._hamsys = "L1", 6, None
+        svc._ham_pipeline = _Obj(get=lambda point, degree: Pipe(point, degree))
+
+        def observe(where):
+            hs, pl = svc.hamsys, svc.pipeline
+            if hs != ("HS", "center_manifold_real", svc.degree) or pl.degree != svc.degree or pl.point != "L1":
+                raise Refuted(f"{where}: hamsys / pipeline do not belong to the current degree {svc.degree}",
+                              f"hamsys = {hs}, pipeline.degree = {pl.degree}", inputs={"history": where})
+        observe("fresh object, degree 6")
+        for hist in ((4,), (4, 6), (4, 4, 8), (6,)):
+            for d in hist:
+                svc.degree = d
+                if svc.degree != d:
+                    raise Refuted("degree setter does not set the degree", str(d))
+                observe("after degree history 6 -> " + " -> ".join(map(str, hist[:hist.index(d) + 1])))
         for bad in (0, -2, 2.5, "4"):
             try:
-                S.degree.fset(stub, bad)
+                svc.degree = bad
                 raise Refuted("degree setter accepts an invalid degree", repr(bad))
             except ValueError:
                 pass
-    chk.obl("centre-manifold degree setter: pipeline entries of old and new degree dropped, hamsys dropped, invalid values "
-            "rejected", "K2 postconditions", ["hiten.algorithms.types.services.center:_CenterManifoldDynamicsService.degree"],
+    chk.obl("centre-manifold degree setter: after every degree history (6->4, 6->4->6, 6->4->4->8) hamsys and pipeline are the "
+            "ones of the CURRENT degree; invalid values rejected", "K2 postconditions", ["hiten.algorithms.types.services.center:_CenterManifoldDynamicsService.degree"],
             "B4 exact evaluation", th_degree)
 
 
@@ -599,6 +714,7 @@ def run(chk):
     _completeness(chk)
     _invalidation_frame(chk)
     _primitives(chk)
+    _latest_results(chk)
     if chk.tier == "thorough":
         _io_witness(chk)
 
